@@ -457,7 +457,21 @@ def iloc_key(draw, n, allow_scalar=True, allow_oob=False):
     if n > 0 and allow_scalar:
         opts.append('int')
         opts.append('int')
+    if n >= 3:
+        opts.append('range_perm')
     kind = draw(st.sampled_from(opts))
+    if kind == 'range_perm':
+        # a list covering one contiguous range of positions, nearly sorted or fully permuted (fast paths for
+        # contiguous keys must not mistake these for slices)
+        a = draw(st.integers(0, n - 3))
+        b = draw(st.integers(a + 3, n))
+        k = list(range(a, b))
+        if draw(st.booleans()):
+            i = draw(st.integers(0, len(k) - 2))
+            k[i], k[i + 1] = k[i + 1], k[i]
+        else:
+            k = list(draw(st.permutations(k)))
+        return k if draw(st.booleans()) else np.array(k, dtype=np.int64)
     if kind == 'int':
         return draw(st.integers(-n, n - 1))
     if kind == 'slice':
